@@ -7,6 +7,7 @@ copy, to look for false alarms.
                                    (drops comments, normalises formatting)
   refactor_variants.py both
   refactor_variants.py params    - rename parameters that are never passed by keyword
+  refactor_variants.py logging   - add _LOGGER.debug(...) at the top of every function and loop body
   refactor_variants.py temps     - bind return values and comparison tests to
                                    temporaries first
 
@@ -186,6 +187,37 @@ class ParamRenamer(ast.NodeTransformer):
         return node
 
 
+class Logging(ast.NodeTransformer):
+    """Add a debug logging call at the top of every function and of every
+    for-loop body (only in modules that already define _LOGGER)."""
+
+    def _call(self, text, node):
+        return ast.Expr(value=ast.Call(
+            func=ast.Attribute(value=ast.Name(id='_LOGGER', ctx=ast.Load()), attr='debug', ctx=ast.Load()),
+            args=[ast.Constant(text)], keywords=[]), lineno=node.lineno, col_offset=0)
+
+    def visit_FunctionDef(self, node):
+        self.generic_visit(node)
+        idx = 1 if (node.body and isinstance(node.body[0], ast.Expr)
+                    and isinstance(node.body[0].value, ast.Constant)
+                    and isinstance(node.body[0].value.value, str)) else 0
+        if any(isinstance(n, (ast.Yield, ast.YieldFrom)) for n in ast.walk(node)) or True:
+            node.body.insert(idx, self._call('entering %s' % node.name, node))
+        return node
+
+    def visit_For(self, node):
+        self.generic_visit(node)
+        node.body.insert(0, self._call('loop', node))
+        return node
+
+    def visit_If(self, node):
+        self.generic_visit(node)
+        node.body.insert(0, self._call('branch', node))
+        if node.orelse and not (len(node.orelse) == 1 and isinstance(node.orelse[0], ast.If)):
+            node.orelse.insert(0, self._call('other branch', node))
+        return node
+
+
 def transform(path, mode):
     with open(path, encoding='utf-8') as handle:
         src = handle.read()
@@ -194,6 +226,9 @@ def transform(path, mode):
         tree = Renamer(src, path).visit(tree)
     if 'params' in mode:
         tree = ParamRenamer(KEYWORDS_USED).visit(tree)
+    if 'logging' in mode and '_LOGGER' in src and 'getLogger' in src:
+        tree = Logging().visit(tree)
+        ast.fix_missing_locations(tree)
     if 'temps' in mode:
         tree = Temps().visit(tree)
         ast.fix_missing_locations(tree)
